@@ -7,7 +7,11 @@
 package main
 
 import (
+	"bytes"
 	"fmt"
+	"os"
+	"os/exec"
+	"path/filepath"
 	"runtime"
 	"strings"
 	"sync"
@@ -437,11 +441,67 @@ func main() {
 		}()
 	}
 	wg.Wait()
+	// Pre-pass: ask the driver which lines its bounded interleaving search leaves undecided (it then echoes the
+	// observation instead of claiming a disagreement); they are recorded under their own histogram class so that the
+	// evidence says how much of the run was only judged by the executable spec, not accepted as a model trace.
+	undecided, prepass := inconclusiveLines(scs, run.OutDir)
+	k, incLines, incScen := 0, 0, 0
 	for _, sc := range scs {
+		hit := false
 		for _, l := range sc.out {
-			run.Case(l.class, l.op, l.impl)
+			class := l.class
+			if undecided[k] {
+				class = "inconclusive/" + class
+				incLines++
+				hit = true
+			}
+			k++
+			run.Case(class, l.op, l.impl)
+		}
+		if hit {
+			incScen++
 		}
 	}
 	run.Extra["scenarios"] = len(scs)
+	run.Extra["inconclusive_prepass"] = prepass
+	run.Extra["inconclusive_lines"] = incLines
+	run.Extra["inconclusive_scenarios"] = incScen
 	run.Finish()
+}
+
+// inconclusiveLines runs the Lean driver once over the buffered cases in marking mode and returns the indices of the
+// lines it could not decide; the second result says whether the pre-pass ran.
+func inconclusiveLines(scs []*scenario, outDir string) (map[int]bool, string) {
+	res := map[int]bool{}
+	drv := os.Getenv("C16_DRIVER")
+	if drv == "" {
+		exe, err := os.Executable()
+		if err != nil {
+			return res, "skipped: " + err.Error()
+		}
+		root := filepath.Dir(filepath.Dir(filepath.Dir(exe))) // <root>/.work/bin/c16
+		drv = filepath.Join(root, "lean", ".lake", "build", "bin", "driver_c16")
+	}
+	if _, err := os.Stat(drv); err != nil {
+		return res, "skipped: driver not built"
+	}
+	var in bytes.Buffer
+	for _, sc := range scs {
+		for _, l := range sc.out {
+			fmt.Fprintf(&in, "%s\t%s\n", l.op, l.impl)
+		}
+	}
+	cmd := exec.Command(drv)
+	cmd.Env = append(os.Environ(), "C16_MARK_INCONCLUSIVE=1")
+	cmd.Stdin = &in
+	out, err := cmd.Output()
+	if err != nil {
+		return res, "skipped: " + err.Error()
+	}
+	for i, ln := range strings.Split(strings.TrimRight(string(out), "\n"), "\n") {
+		if strings.HasSuffix(ln, "\tinconclusive") {
+			res[i] = true
+		}
+	}
+	return res, "ok"
 }
